@@ -358,11 +358,19 @@ func cmdCheck(args []string) int {
 			exit = 3
 		}
 	}
-	for _, m := range inconclusive {
-		fmt.Printf("INCONCLUSIVE property=%s reason=%s\n", cfg.ID, m)
-		if exit == 0 {
-			exit = 2
-		}
+	// Obligations that can no longer be generated (the contract of a function in
+	// this property's roster does not bind to the code any more, the function
+	// left the supported subset, or a key obligation disappeared) passed on the
+	// unchanged tree and do not pass now: reported as a violation without a
+	// failing input. The replay file carries the reason.
+	for i, m := range inconclusive {
+		violations++
+		os.MkdirAll(replayDir, 0o755)
+		rp := filepath.Join(replayDir, fmt.Sprintf("%s-ungenerated-%d-%s.txt", cfg.ID, i, shortHash(m)))
+		os.WriteFile(rp, []byte("obligation(s) could not be generated from the current source\nreason: "+m+
+			"\n\nThe contracts for this property are keyed to functions, parameters, fields and (where unavoidable) local variables\nof the code. Every obligation of the named function was discharged on the unchanged tree; none can be discharged now.\nresult: no-failing-input-found\n"), 0o644)
+		fmt.Printf("VIOLATION property=%s replay=%s obligation=UNGENERATED reason=%q no-failing-input-found\n", cfg.ID, rp, m)
+		exit = 1
 	}
 
 	// --- evidence
